@@ -21,7 +21,7 @@ ASSUMPTIONS = [
 ]
 PLAN = {
     "quick": {"shards": 8, "shard_timeout": 400, "case_timeout": 30, "grammars": 160, "max_case_timeouts": 3},
-    "thorough": {"shards": 16, "shard_timeout": 1800, "case_timeout": 60, "grammars": 700, "max_case_timeouts": 20},
+    "thorough": {"shards": 16, "shard_timeout": 3600, "case_timeout": 60, "grammars": 7000, "max_case_timeouts": 80},
 }
 THRESHOLDS = {
     "quick": {"arguments_compared": 5000, "end_of_history_compared": 3000, "step_applications": 800, "tree_nodes_snapshotted": 20000, "kind:tree": 500, "kind:ge": 300, "kind:sge": 300, "kind:dsge": 300, "kind:stack": 100, "set:step_kinds": 8},
